@@ -27,6 +27,16 @@ Print Assumptions C14_itoa_atoi.
 Example C14_itoa_atoi_ex : itoa 1204 = [49; 50; 48; 52]%N /\ itoa (-7) = [45; 55]%N /\ atoi [43; 48; 57]%N = Some 9%Z.
 Proof. vm_compute. auto. Qed.
 
+(* strconv.Atoi itself ([atoi64]: a value an int cannot hold is an error) reads back every number
+   an int holds *)
+Theorem C14_itoa_atoi64 : forall n : Z, in_int64 n = true -> atoi64 (itoa n) = Some n.
+Proof. exact itoa_atoi64. Qed.
+Print Assumptions C14_itoa_atoi64.
+Example C14_itoa_atoi64_ex :
+  atoi64 (itoa 9223372036854775807) = Some 9223372036854775807 /\ atoi64 (itoa 9223372036854775808) = None
+  /\ atoi64 (itoa (-9223372036854775808)) = Some (-9223372036854775808) /\ wrap64 (9223372036854775807 + 1) = -9223372036854775808.
+Proof. vm_compute. auto. Qed.
+
 (* a concrete diff used by the examples: Left = [a; b; c], Right = [a; x; c; y] *)
 Definition ex_L : list line := [[97]; [98]; [99]]%N.
 Definition ex_R : list line := [[97]; [120]; [99]; [121]]%N.
@@ -40,7 +50,7 @@ Proof.
              [mkChunk [mkEdit Copy [] [[121]%N]] 4 4 4 5] ([[99]%N]) ([[99]%N; [121]%N])); try reflexivity.
     apply (cf_cons _ 3 3 [[99]%N] (mkChunk [mkEdit Copy [] [[121]%N]] 4 4 4 5) [] [] []); try reflexivity.
     apply (cf_nil _ 4 5 []).
-  - repeat constructor; cbn; try lia; discriminate.
+  - repeat constructor; unfold fits; cbn; try lia; discriminate.
   - unfold lines_nf, ex_cs, chunk_lines_nf.
     repeat (apply Forall_cons || apply Forall_nil); unfold edit_lines_nf; cbn [eop X Y edits];
       repeat (apply Forall_cons || apply Forall_nil || split); unfold newline_free; cbn;
@@ -50,7 +60,9 @@ Qed.
 (* ---- normal format (holds on the code as it stands; no variant involved) ---- *)
 
 (* Read(Normal(chunks)) returns one chunk per change command at the same line ranges, for every
-   chunk list whose change commands have lines to show and whose lines are newline-free
+   chunk list whose change commands have lines to show, whose line numbers are positive and at
+   most 2^61 ([normal_ok]; the reader model has strconv.Atoi's range error and Go's wrap-around
+   int arithmetic, and no number exceeds an int on these lists) and whose lines are newline-free
    (any content otherwise: empty lines, lines starting with < > - --- digits ...). *)
 Theorem C14_normal_roundtrip : forall cs : list (chunk line),
   normal_ok cs -> lines_nf cs -> read_normal (normal cs) = ROk (normal_normalise cs).
@@ -92,8 +104,9 @@ Proof. exact code_is_pinned. Qed.
 Print Assumptions C14_code_is_pinned.
 
 (* FULL statement, under the repaired switches: for every chunk list (empty, one-line and
-   empty-range hunks included), every header: ReadUnified(Unified(chunks)) returns the chunks hunk
-   for hunk at the same ranges (edits regrouped as a hunk body can express them) and the header. *)
+   empty-range hunks included) whose line numbers are at most 2^61 in magnitude ([ranges_fit]),
+   every header: ReadUnified(Unified(chunks)) returns the chunks hunk for hunk at the same ranges
+   (edits regrouped as a hunk body can express them) and the header. *)
 Theorem C14_unified_roundtrip :
   forall (time : Type) (zero_time : time) (time_is_zero : time -> bool)
          (format_time : time -> bytes) (parse_time : bytes -> option time),
@@ -101,12 +114,12 @@ Theorem C14_unified_roundtrip :
     (forall t, newline_free (format_time t)) ->
     (forall t, time_is_zero t = true -> t = zero_time) ->
   forall (fi : option (file_info time)) (cs : list (chunk line)),
-    lines_nf cs -> info_ok time fi ->
+    ranges_fit cs -> lines_nf cs -> info_ok time fi ->
     read_unified time zero_time parse_time repaired (unified time_is_zero format_time repaired fi cs)
     = ROk (mkPatch (expected_info time fi cs) (unified_normalise cs)).
 Proof.
-  intros time z iz fmt prs H1 H2 H3 fi cs Hnf Hfi.
-  apply (read_unified_unified time z iz fmt prs H1 H2 H3); [left; reflexivity | exact Hnf | exact Hfi].
+  intros time z iz fmt prs H1 H2 H3 fi cs Hfit Hnf Hfi.
+  apply (read_unified_unified time z iz fmt prs H1 H2 H3); [exact Hfit | left; reflexivity | exact Hnf | exact Hfi].
 Qed.
 Print Assumptions C14_unified_roundtrip.
 Example C14_unified_roundtrip_ex :
@@ -125,17 +138,18 @@ Theorem C14_unified_roundtrip_partial :
     (forall t, newline_free (format_time t)) ->
     (forall t, time_is_zero t = true -> t = zero_time) ->
   forall (fi : option (file_info time)) (cs : list (chunk line)),
-    Forall no_one_line_side cs -> lines_nf cs -> info_ok time fi ->
+    ranges_fit cs -> Forall no_one_line_side cs -> lines_nf cs -> info_ok time fi ->
     read_unified time zero_time parse_time pinned (unified time_is_zero format_time pinned fi cs)
     = ROk (mkPatch (expected_info time fi cs) (unified_normalise cs)).
 Proof.
-  intros time z iz fmt prs H1 H2 H3 fi cs Hno Hnf Hfi.
-  apply (read_unified_unified time z iz fmt prs H1 H2 H3); [right; exact Hno | exact Hnf | exact Hfi].
+  intros time z iz fmt prs H1 H2 H3 fi cs Hfit Hno Hnf Hfi.
+  apply (read_unified_unified time z iz fmt prs H1 H2 H3); [exact Hfit | right; exact Hno | exact Hnf | exact Hfi].
 Qed.
 Print Assumptions C14_unified_roundtrip_partial.
 Example C14_unified_roundtrip_partial_ex :
-  Forall no_one_line_side [mkChunk [mkEdit Replace [[98]; [98]]%N [[99]; [100]; [101]]%N] 2 4 2 5].
-Proof. repeat constructor; cbn; lia. Qed.
+  Forall no_one_line_side [mkChunk [mkEdit Replace [[98]; [98]]%N [[99]; [100]; [101]]%N] 2 4 2 5]
+  /\ ranges_fit [mkChunk [mkEdit Replace [[98]; [98]]%N [[99]; [100]; [101]]%N] 2 4 2 5].
+Proof. split; repeat constructor; unfold fits; cbn; lia. Qed.
 
 (* F5: on the code as it stands "@@ -2 +2 @@" comes back as two empty ranges and re-formats differently *)
 Theorem C14_roundtrip_refuted :
@@ -314,7 +328,10 @@ Proof. vm_compute. reflexivity. Qed.
    From the two files alone.  [diff_new lhs rhs] is New(lhs, rhs) (C13's chunk model on the
    script computed by C11's model of slice.EditScript, lines compared with ==);
    [rendered_chunks lhs rhs n cs] says that cs is d.Chunks of New(lhs, rhs) or of
-   New(lhs, rhs).AddContext(n).Unify().  Every n in Z (AddContext does nothing for n <= 0). *)
+   New(lhs, rhs).AddContext(n).Unify().  Every n in Z (AddContext does nothing for n <= 0).
+   [file_fits l]: l has at most 2^61 - 1 lines, so that every line number is a number an int holds
+   (the models of the readers have strconv.Atoi's range error and Go's wrap-around arithmetic;
+   no Go slice is that long). *)
 
 (* the pipeline never fails *)
 Theorem C14_pipeline_total : forall (lhs rhs : list line) (n : Z),
@@ -324,15 +341,18 @@ Print Assumptions C14_pipeline_total.
 
 (* the hypotheses of all the theorems above hold of the package's own chunk lists *)
 Theorem C14_pipeline_well_formed : forall (lhs rhs : list line) (n : Z) (cs : list (chunk line)),
-  Forall newline_free lhs -> Forall newline_free rhs -> rendered_chunks lhs rhs n cs ->
-  patch_ok lhs rhs cs /\ normal_ok cs /\ context_ok cs /\ lines_nf cs.
+  Forall newline_free lhs -> Forall newline_free rhs -> file_fits lhs -> file_fits rhs ->
+  rendered_chunks lhs rhs n cs ->
+  patch_ok lhs rhs cs /\ normal_ok cs /\ context_ok cs /\ lines_nf cs /\ ranges_fit cs.
 Proof. exact pipeline_well_formed. Qed.
 Print Assumptions C14_pipeline_well_formed.
 Example C14_pipeline_ex :   (* New([a b c], [a x c y]) and the same with one line of context *)
+  file_fits ex_L /\ file_fits ex_R /\
   rendered_chunks ex_L ex_R 1 ex_cs /\
   rendered_chunks ex_L ex_R 1
     [mkChunk [mkEdit Emit [[97]%N] []; mkEdit Replace [[98]%N] [[120]%N]; mkEdit Emit [[99]%N] []; mkEdit Copy [] [[121]%N]] 1 4 1 5].
 Proof.
+  split; [unfold file_fits, fits; cbn; lia|]. split; [unfold file_fits, fits; cbn; lia|].
   split; [left; vm_compute; reflexivity|].
   right. eexists. eexists. split; [vm_compute; reflexivity|]. split; vm_compute; reflexivity.
 Qed.
@@ -340,7 +360,8 @@ Qed.
 (* NORMAL, code as it stands: for all lhs rhs n, the rendering applied to lhs gives rhs, reads back
    as one chunk per change command, and re-formats to the same bytes *)
 Theorem C14_end_to_end_normal : forall (lhs rhs : list line) (n : Z) (cs : list (chunk line)),
-  Forall newline_free lhs -> Forall newline_free rhs -> rendered_chunks lhs rhs n cs ->
+  Forall newline_free lhs -> Forall newline_free rhs -> file_fits lhs -> file_fits rhs ->
+  rendered_chunks lhs rhs n cs ->
   apply_normal lhs (split_lines (normal cs)) = Some rhs /\
   read_normal (normal cs) = ROk (normal_normalise cs) /\
   normal (normal_normalise cs) = normal cs.
@@ -352,7 +373,8 @@ Theorem C14_end_to_end_context :
   forall (time : Type) (time_is_zero : time -> bool) (format_time : time -> bytes),
     (forall t, newline_free (format_time t)) ->
   forall (lhs rhs : list line) (n : Z) (cs : list (chunk line)),
-    Forall newline_free lhs -> Forall newline_free rhs -> rendered_chunks lhs rhs n cs ->
+    Forall newline_free lhs -> Forall newline_free rhs -> file_fits lhs -> file_fits rhs ->
+    rendered_chunks lhs rhs n cs ->
   forall fi : option (file_info time), info_ok time fi ->
     apply_context lhs (split_lines (context time_is_zero format_time fi cs)) = Some rhs.
 Proof. exact e2e_context. Qed.
@@ -366,7 +388,8 @@ Theorem C14_end_to_end_unified :
     (forall t, newline_free (format_time t)) ->
     (forall t, time_is_zero t = true -> t = zero_time) ->
   forall (lhs rhs : list line) (n : Z) (cs : list (chunk line)),
-    Forall newline_free lhs -> Forall newline_free rhs -> rendered_chunks lhs rhs n cs ->
+    Forall newline_free lhs -> Forall newline_free rhs -> file_fits lhs -> file_fits rhs ->
+    rendered_chunks lhs rhs n cs ->
   forall fi : option (file_info time), info_ok time fi ->
     apply_unified lhs (split_lines (unified time_is_zero format_time repaired fi cs)) = Some rhs /\
     read_unified time zero_time parse_time repaired (unified time_is_zero format_time repaired fi cs)
@@ -374,8 +397,8 @@ Theorem C14_end_to_end_unified :
     unified time_is_zero format_time repaired (expected_info time fi cs) (unified_normalise cs)
       = unified time_is_zero format_time repaired fi cs.
 Proof.
-  intros time z iz fmt prs H1 H2 H3 lhs rhs n cs Hl Hr Hcs fi Hfi.
-  destruct (e2e_unified time z iz fmt prs H1 H2 H3 lhs rhs n cs Hl Hr Hcs repaired fi Hfi) as (Ha & Hb & Hc).
+  intros time z iz fmt prs H1 H2 H3 lhs rhs n cs Hl Hr Hfl Hfr Hcs fi Hfi.
+  destruct (e2e_unified time z iz fmt prs H1 H2 H3 lhs rhs n cs Hl Hr Hfl Hfr Hcs repaired fi Hfi) as (Ha & Hb & Hc).
   split; [apply Ha; left; reflexivity|]. split; [apply Hb; left; reflexivity | exact Hc].
 Qed.
 Print Assumptions C14_end_to_end_unified.
@@ -389,7 +412,8 @@ Theorem C14_end_to_end_unified_partial :
     (forall t, newline_free (format_time t)) ->
     (forall t, time_is_zero t = true -> t = zero_time) ->
   forall (lhs rhs : list line) (n : Z) (cs : list (chunk line)),
-    Forall newline_free lhs -> Forall newline_free rhs -> rendered_chunks lhs rhs n cs ->
+    Forall newline_free lhs -> Forall newline_free rhs -> file_fits lhs -> file_fits rhs ->
+    rendered_chunks lhs rhs n cs ->
   forall fi : option (file_info time), info_ok time fi ->
     (Forall (nonempty_sides true) cs ->
        apply_unified lhs (split_lines (unified time_is_zero format_time pinned fi cs)) = Some rhs) /\
@@ -399,8 +423,8 @@ Theorem C14_end_to_end_unified_partial :
     unified time_is_zero format_time pinned (expected_info time fi cs) (unified_normalise cs)
       = unified time_is_zero format_time pinned fi cs.
 Proof.
-  intros time z iz fmt prs H1 H2 H3 lhs rhs n cs Hl Hr Hcs fi Hfi.
-  destruct (e2e_unified time z iz fmt prs H1 H2 H3 lhs rhs n cs Hl Hr Hcs pinned fi Hfi) as (Ha & Hb & Hc).
+  intros time z iz fmt prs H1 H2 H3 lhs rhs n cs Hl Hr Hfl Hfr Hcs fi Hfi.
+  destruct (e2e_unified time z iz fmt prs H1 H2 H3 lhs rhs n cs Hl Hr Hfl Hfr Hcs pinned fi Hfi) as (Ha & Hb & Hc).
   split; [intros H; apply Ha; right; exact H|]. split; [intros H; apply Hb; right; exact H | exact Hc].
 Qed.
 Print Assumptions C14_end_to_end_unified_partial.
